@@ -198,12 +198,18 @@ def main(tier, seed):
     from checks.c02 import gen_rows
 
     rep = Report(PID, tier, seed, "proof")
-    rep.assumed_contract("core field functions are row-wise (uninterpreted row-wise stubs); for the cores this is proved only where "
-                         "checks/c06_cores.py reaches them, otherwise assumed (listed there)")
+    rep.assumed_contract("core field functions are row-wise: PROVED here for magnet_cuboid_Bfield, dipole_Hfield, triangle_Bfield (real code under the shim, "
+                         "checks/c06_cores.py); ASSUMED for the cylinder cores, magnet_cylinder_segment_Hfield, current_circle_Hfield (cel/el3 convergence loops) "
+                         "and current_polyline_Hfield (obligations not decided by the solvers in time)")
     rep.assume("cel / el3 / ellipe / ellipk / KD-tree routines row-wise (bounded numeric stand-in only)")
     rep.explanation = "non-interference of batch-global values per wrapper; trimesh loop invariant; level-2 provenance is a bounded stand-in"
     names = list(WRAPPERS)
     tasks = [(nm, (lambda r, nm=nm: noninterference(r, nm))) for nm in names]
+    from checks import c06_cores
+    from contracts.bhjm import CORES
+
+    for cn in CORES:
+        tasks.append((f"core.{cn}", lambda r, cn=cn: c06_cores.rowwise(r, cn)))
     try:
         from checks import c06_trimesh
 
